@@ -214,7 +214,9 @@ KindOps(k) ==
 FrameOps(frame) ==
     CASE frame = "handshake"    -> {"frame-hdr-truncated", "frame-type-unknown", "frame-type-other", "frame-size-minus1",
                                     "frame-size-plus1", "frame-size-limit-plus1", "frame-size-huge", "frame-body-truncated",
-                                    "frame-empty-body", "frame-valid"}
+                                    "frame-empty-body", "frame-valid",
+                                    \* a well-formed frame (valid body) of each frame type, whatever this position expects
+                                    "frame-other-cred", "frame-other-ack-null", "frame-other-ack-error", "frame-other-proto"}
       [] frame = "snappy"       -> {"snappy-empty", "snappy-hdr-truncated", "snappy-len-huge", "snappy-len-plus1", "snappy-len-minus1",
                                     "snappy-body-truncated", "snappy-garbage", "snappy-bad-offset", "snappy-valid"}
       [] frame = "lying-remote" -> {"lie-count-plus1000", "lie-count-minus1", "lie-no-elements", "lie-hash-random", "lie-fewer-results",
@@ -246,6 +248,7 @@ OpClass(op) ==
       [] op \in {"keydata-len-0", "keydata-len-1", "keydata-len-15", "keydata-len-16", "keydata-len-24", "keydata-len-31",
                  "keydata-len-33", "keydata-len-64"} -> "key-material"
       [] op \in {"rep-reverse", "rep-rotate"} -> "reorder"
+      [] op \in {"frame-other-cred", "frame-other-ack-null", "frame-other-ack-error", "frame-other-proto"} -> "wrong-frame-type"
       [] op = "ref-inbatch-orphan" -> "inbatch-ref"
       [] op \in {"frame-valid", "snappy-valid", "lie-honest", "valid"} -> "valid"
       [] OTHER -> "unclassified"
@@ -341,7 +344,7 @@ RequiredClasses(ep) ==
       [] ep \in {"tree.AddRawChanges", "synctree.HandleHeadUpdate", "synctree.HandleResponse"} ->
              {"truncate", "length-field", "remove-field", "duplicate-field", "nil-submessage", "short-ciphertext",
               "wrong-key-type", "parent-ref", "trimmed-ref", "dangling-ref", "oversize", "inner-plaintext", "reorder", "inbatch-ref"}
-      [] ep = "handshake.readMsg" -> {"truncate", "length-field", "oversize", "wrong-key-type", "remove-field"}
+      [] ep = "handshake.readMsg" -> {"truncate", "length-field", "oversize", "wrong-key-type", "remove-field", "wrong-frame-type"}
       [] ep = "snappy.Unmarshal" -> {"truncate", "length-field", "oversize", "garbage"}
       [] ep = "ldiff.Diff" -> {"length-field", "dangling-ref", "oversize", "duplicate-field"}
       [] ep = "crypto.Decrypt" -> {"short-ciphertext", "garbage", "truncate"}
